@@ -20,6 +20,7 @@ def check(tree, rep, tier='quick', seed=0):
     R.k1b_cli_reports(core, rep)
     R.k11i_strict_decoding(core, rep)    # no byte of the input file is dropped or replaced before the validators see the text
     R.k35_store_loaded_eagerly(core, rep)
+    R.k11j_validator_and_converter_agree(core, rep)
     R.k18b_write_reaches_the_file(core, rep)     # 'answers were written back': the write lands in the named file wherever that file lives
     R.k17b_validation_on_demand(core, rep)
     R.k13_add_form(core, rep)            # a form reached through an input first is loaded like one reached through a line first
